@@ -40,7 +40,11 @@ def run(ctx):
         "the statement byte ranges are checked statically on the CASM the compiler emits now, for every statement of "
         "every corpus program: all internal paths are enumerated, each path's ap movement must equal the declared "
         "ApChange::Known, statement ranges must be contiguous and equal to the size of their instructions.",
-        sc.TRUSTED + ["static path enumeration in harness/h15 (straight-line-with-branches libfunc code; statements with "
+        sc.TRUSTED + ["libfunc-level premises (branch_dyn) are additionally PROVED, for the 2164 statements of the C03/C06 "
+                      "wrapper set (503 libfunc instantiations), over the translator-regenerated code objects: "
+                      "coq/Props/C17_libfuncs.v (C17_libfunc_ap_exact, C04_libfunc_steps_bound, C04_libfunc_cost_bound), "
+                      "re-checked by ./check C03",
+                      "static path enumeration in harness/h15 (straight-line-with-branches libfunc code; statements with "
                       "internal loops/abs jumps are skipped and counted)"],
         "make coq/Sierra && coqc Props/C17.v ; harness/h15 <corpus> -> coqc out/C17/cases/acc_*.v",
     )
